@@ -1,7 +1,7 @@
 (* Extraction of the executable models to OCaml.  ExtrOcamlBasic only: bool, option, list,
    prod, unit, sumbool are mapped to OCaml's; N, positive, nat, Z stay the extracted datatypes. *)
 Require Import ExtrOcamlBasic.
-From SKV Require Import Params Base.Crc32 Codec.Wal Codec.WalInst Base.Lex Txn.WriteSet Spec.Store Spec.Cursor Spec.Machine Lsm.CompactKey Misc.Lock Misc.LockInst Txn.RangeIter.
+From SKV Require Import Params Base.Crc32 Codec.Wal Codec.WalInst Base.Lex Txn.WriteSet Spec.Store Spec.Cursor Spec.Machine Lsm.CompactKey Misc.Lock Misc.LockInst Txn.RangeIter Conc.Oracle Conc.CommitSeq.
 Extraction Language OCaml.
 Extraction "skv_model.ml"
   WalInst.wal_sessions WalInst.wal_read_all WalInst.wal_repair WalInst.wal_known_unparsed_tail WalInst.wal_params_ok WalInst.WB
@@ -9,4 +9,6 @@ Extraction "skv_model.ml"
   Machine.step Machine.m0
   CompactKey.compact_key CompactKey.insert_desc CompactKey.dedup_seq
   Lock.do_open Lock.do_close Lock.do_drop Lock.do_drop_detached Lock.do_runtime_gone Lock.do_commit Lock.do_kill Lock.s0 Lock.pc_of LockInst.current
-  RangeIter.ri_init RangeIter.ri_step RangeIter.ri_get RangeIter.restrict RangeIter.ri_run_bounded.
+  RangeIter.ri_init RangeIter.ri_step RangeIter.ri_get RangeIter.restrict RangeIter.ri_run_bounded
+  Oracle.o_new Oracle.check Oracle.publish Oracle.rollback Oracle.reset_for_restore Oracle.observe_key
+  CommitSeq.c0 CommitSeq.cs_step Params.ORACLE_GC_INTERVAL.
